@@ -13,6 +13,9 @@ def main():
     tier = sys.argv[2] if len(sys.argv) > 2 else os.environ.get("VERIF_TIER", "quick")
     if tier not in ("quick", "thorough"):
         tier = "quick"
+    # wall-clock budget of one symbolic run of the MIR executor (a part that exceeds it is INCONCLUSIVE, never a verdict): shorter in the quick tier, where every
+    # run of the unchanged tree takes well under a minute - a change to /repo that makes a run explode (e.g. a newly recursive helper) then costs minutes, not hours
+    os.environ.setdefault("VERIF_E3_RUN_BUDGET", "120" if tier == "quick" else "600")
     try:
         mod = importlib.import_module("vlib." + pid.lower())
     except ModuleNotFoundError:
